@@ -493,3 +493,225 @@ def run_c05(script, rng, summary, driver=None):
         spec_solver.add(z3.Or(block) if block else z3.BoolVal(False))
     count(summary, f"run_c05_schedules_pinned_{min(checked, 25)}")
     return None
+
+
+# ---------------------------------------------------------------------------------- C06
+def mentions(x, name):
+    if isinstance(x, str):
+        return x == name
+    if isinstance(x, (list, tuple)):
+        return any(mentions(y, name) for y in x)
+    return False
+
+
+def delete_task(script, t):
+    """the same construction script with task `t`, its requirements and every constraint / indicator that names it
+    removed; constraint and selection ids of later declarations are re-mapped.  Returns (script', cmap, smap) or None
+    if something cannot be deleted cleanly (objectives over all tasks, …)."""
+    out = []
+    cmap, smap = {}, {}
+    nc = ns = 0          # ids in the original script
+    nc2 = ns2 = 0        # ids in the new script
+
+    def remap_refs(c):
+        """rewrite ("ref", i) operands; None if one refers to a deleted constraint"""
+        if isinstance(c, (list, tuple)):
+            if len(c) == 2 and c[0] == "ref" and isinstance(c[1], int):
+                return ("ref", cmap[c[1]]) if cmap.get(c[1]) is not None else None
+            r = []
+            for y in c:
+                z = remap_refs(y)
+                if z is None and y is not None:
+                    return None
+                r.append(z)
+            return tuple(r) if isinstance(c, tuple) else r
+        return c
+
+    for d in script:
+        op = d["op"]
+        if op == "task":
+            if d["name"] != t:
+                out.append(d)
+        elif op == "select":
+            smap[ns] = ns2
+            ns += 1
+            ns2 += 1
+            out.append(d)
+        elif op == "require":
+            res = d["res"]
+            creates = res[0] == "cumul"
+            if d["task"] == t:
+                if creates:
+                    smap[ns] = None
+                    ns += 1
+                continue
+            d2 = dict(d)
+            if res[0] == "select":
+                if smap.get(res[1]) is None:
+                    return None
+                d2["res"] = ("select", smap[res[1]])
+            if creates:
+                smap[ns] = ns2
+                ns += 1
+                ns2 += 1
+            out.append(d2)
+        elif op == "constraint":
+            c = d["c"]
+            if c[0] in ("forceScheduleN", "unorderedGroup", "orderedGroup", "contiguous", "scheduleN") and t in c[1]:
+                # a rule over a list of tasks: the deleted task leaves the list
+                rest = [x for x in c[1] if x != t]
+                if not rest or (c[0] == "forceScheduleN" and c[2] > len(rest) and c[3] != "max"):
+                    return None
+                c = (c[0], rest) + tuple(c[2:])
+                d = dict(d, c=c)
+            drop = mentions(c, t)
+            if drop and c[0] in ("dependency", "conditionSchedule") and not (c[0] == "dependency" and c[1] == c[2]):
+                # a rule that couples the scheduling of t with other tasks / conditions constrains them through t:
+                # honouring it is not "t being inert"; such scripts are outside this search
+                return None
+            c2 = c
+            if c[0] in ("not", "or", "and", "xor", "implies", "ifThenElse"):
+                # a combination over a constraint of the deleted task has no counterpart in the smaller problem
+                if drop:
+                    return None
+                c2 = remap_refs(c)
+                if c2 is None:
+                    return None
+            if not drop and c[0] == "forceApplyN":
+                ids = [cmap.get(i) for i in c[1]]
+                if any(i is None for i in ids):
+                    return None
+                c2 = (c[0], ids, c[2], c[3])
+            if not drop and c[0] in ("sameWorkers", "distinctWorkers"):
+                if smap.get(c[1]) is None or smap.get(c[2]) is None:
+                    drop = True
+                else:
+                    c2 = (c[0], smap[c[1]], smap[c[2]])
+            if drop:
+                cmap[nc] = None
+                nc += 1
+                continue
+            cmap[nc] = nc2
+            nc += 1
+            nc2 += 1
+            out.append(dict(d, c=c2))
+        elif op in ("indicator", "objective"):
+            return None          # indicators over "all tasks" change with the task list: not used in this search
+        else:
+            out.append(d)
+    return out, cmap, smap
+
+
+def task_pins(real_from, m, real_to, skip=(), smap=None, cmap=None):
+    """pins on `real_to`'s variables reproducing model `m` of `real_from` for every task but `skip`"""
+    pins = []
+    for n, t in real_from.tasks.items():
+        if n in skip or n not in real_to.tasks:
+            continue
+        u = real_to.tasks[n]
+        sched = True
+        if t.optional:
+            sched = z3.is_true(m.eval(t._scheduled, model_completion=True))
+            pins.append(u._scheduled == sched)
+        if sched:
+            pins += [u._start == m.eval(t._start, model_completion=True), u._end == m.eval(t._end, model_completion=True)]
+            if hasattr(t, "_duration"):
+                pins.append(u._duration == m.eval(t._duration, model_completion=True))
+    pins.append(real_to.problem._horizon == m.eval(real_from.problem._horizon, model_completion=True))
+    sf, st_ = real_from.selects(), real_to.selects()
+    for i, sel in enumerate(sf):
+        j = smap.get(i) if smap is not None else i
+        if j is None or j >= len(st_):
+            continue
+        byname = {w.name: f for w, f in st_[j]._selection_dict.items()}
+        for w, flag in sel._selection_dict.items():
+            if w.name in byname:
+                pins.append(byname[w.name] == z3.is_true(m.eval(flag, model_completion=True)))
+    cf, ct = list(real_from.problem.constraints.values()), list(real_to.problem.constraints.values())
+    for i, c in enumerate(cf):
+        j = cmap.get(i) if cmap is not None else i
+        if j is None or j >= len(ct) or not c.optional:
+            continue
+        pins.append(ct[j]._applied == z3.is_true(m.eval(c._applied, model_completion=True)))
+    return pins
+
+
+def block_tasks(real, m, skip=()):
+    lits = []
+    for n, t in real.tasks.items():
+        if n in skip:
+            continue
+        lits += [t._start != m.eval(t._start, model_completion=True), t._end != m.eval(t._end, model_completion=True)]
+        if t.optional:
+            lits.append(t._scheduled != m.eval(t._scheduled, model_completion=True))
+    return z3.Or(lits) if lits else z3.BoolVal(False)
+
+
+def run_c06(script, rng, summary):
+    real = pslib.Real()
+    real.run(script)
+    opts = [n for n, t in real.tasks.items() if t.optional]
+    if not opts:
+        count(summary, "run_c06_skipped_no_optional_task")
+        return None
+    t = rng.choice(opts)
+    dl = delete_task(script, t)
+    if dl is None:
+        count(summary, "run_c06_skipped_not_deletable")
+        return None
+    script2, cmap, smap = dl
+    real2 = pslib.Real()
+    if any(r != "ok" for r in real2.run(script2)):
+        count(summary, "run_c06_skipped_deletion_rejected")
+        return None
+    A = list(real.initialize()._solver.assertions())
+    B = list(real2.initialize()._solver.assertions())
+    if any(z3.is_quantifier(a) for a in A + B):
+        return None
+    count(summary, "run_c06")
+    summary["nontrivial"].append("run" + str(hash(str((script, t)))))
+    unsched = real.tasks[t]._scheduled == False  # noqa: E712
+    # do the optional-task rules themselves allow leaving t unscheduled?
+    rules = z3.Solver(); rules.set("timeout", 10000)
+    for task in real.problem.tasks.values():
+        rules.add(task.get_z3_assertions())
+    for c in real.problem.constraints.values():
+        if type(c).__name__ in ("OptionalTaskForceSchedule", "OptionalTaskConditionSchedule", "OptionalTasksDependency",
+                                "ForceScheduleNOptionalTasks") and not c._created_from_assertion:
+            rules.add(c.get_z3_assertions())
+    rules.add(unsched)
+    if rules.check() != z3.sat:
+        count(summary, "run_c06_skipped_rules_forbid_unscheduling")
+        return None
+    inv = {v: k for k, v in smap.items() if v is not None}
+    cinv = {v: k for k, v in cmap.items() if v is not None}
+    # (1) every schedule of S with t unscheduled is a schedule of S \ t
+    sa = z3.Solver(); sa.set("timeout", 10000); sa.add(A); sa.add(unsched)
+    n1 = 0
+    for _ in range(6):
+        if sa.check() != z3.sat:
+            break
+        m = sa.model()
+        chk = z3.Solver(); chk.set("timeout", 10000); chk.add(B)
+        chk.add(task_pins(real, m, real2, skip=(t,), smap=smap, cmap=cmap))
+        n1 += 1
+        if chk.check() == z3.unsat:
+            return {"what": f"with optional task {t} left unscheduled the problem admits a schedule of the other tasks that the "
+                            f"problem without {t} rejects", "deleted_task": t, "script_without_task": script2}
+        sa.add(block_tasks(real, m, skip=(t,)))
+    # (2) every schedule of S \ t extends to a schedule of S with t unscheduled
+    sb = z3.Solver(); sb.set("timeout", 10000); sb.add(B)
+    n2 = 0
+    for _ in range(6):
+        if sb.check() != z3.sat:
+            break
+        m = sb.model()
+        chk = z3.Solver(); chk.set("timeout", 10000); chk.add(A); chk.add(unsched)
+        chk.add(task_pins(real2, m, real, smap=inv, cmap=cinv))
+        n2 += 1
+        if chk.check() == z3.unsat:
+            return {"what": f"a schedule of the problem without optional task {t} is lost when {t} is declared and left "
+                            f"unscheduled (the unscheduled task is not inert)", "deleted_task": t, "script_without_task": script2}
+        sb.add(block_tasks(real2, m))
+    count(summary, f"run_c06_pinned_{n1}+{n2}")
+    return None
